@@ -12,6 +12,7 @@ package netpoll
 
 import (
 	"bufio"
+	"runtime"
 	"runtime/pprof"
 	"context"
 	"flag"
@@ -40,6 +41,19 @@ type vocConn struct {
 	got        int64
 	peerClosed bool
 	hupped     bool // no handler: the hang-up detached the operator, the user's Close does the rest
+	// hang-up queue scenarios: OnDisconnect of every connection counts its calls; with a gate armed it blocks there (a slow user
+	// callback), which delays every later entry of the same hang-up list
+	disc     int32
+	gate     chan struct{}
+	deferred bool // its hang-up was recorded in a handler call behind a blocked entry and has not been delivered yet
+}
+
+// vocSentinel: an operator of the harness whose (synthetic) hang-up is the LAST entry of one handler call's hang-up list:
+// when its OnHup runs, the goroutine of that call has been through every earlier entry
+type vocSentinel struct {
+	op   *FDOperator
+	fds  [2]int
+	done chan struct{}
 }
 
 // settle waits until the connection's handler task (if any) is idle and has consumed what arrived
@@ -92,6 +106,258 @@ type vocWorld struct {
 	slots   map[int32]bool
 	held    []*FDOperator // operators taken by "drain" and never used
 	mid     func()        // "dclose": runs once inside the next Inputs callback, i.e. while the poller holds that slot's token
+	sents   []*vocSentinel // hang-up goroutines that have not finished (an entry is blocked at a gate)
+	// real-Wait mode ("waitstart" … "waitstop"): defaultPoll.Wait runs on its own goroutine and IS the poller; it reports to the
+	// harness after every return of epoll_wait (schedule point of lib/epollhook.py) and at the entry of p.Handler (wrapped func
+	// field) and waits there until it is resumed: fetch and opcache.free() are Wait's, the harness only observes them
+	realWait  bool
+	hookBatch []epollevent
+	toMain    chan vocEv
+	resume    chan struct{}
+	waitDone  chan error
+	waitEnded bool // Wait returned: the close message made handler close the poller's descriptors
+}
+
+type vocEv struct {
+	kind  int // 1: epoll_wait returned, 2: p.Handler entered
+	n     int
+	batch []epollevent
+	wop   bool
+}
+
+// verifAfterEpollWait is called by the hooked copy of EpollWait (lib/epollhook.py) after the system call returned; nil, or never
+// called when the harness was built without that overlay
+var verifAfterEpollWait func(epfd int, events []epollevent, n int)
+
+var vocHookWorld *vocWorld
+
+func vocHookAvailable() bool {
+	fd, err := EpollCreate(0)
+	if err != nil {
+		return false
+	}
+	defer syscall.Close(fd)
+	hit := false
+	old := verifAfterEpollWait
+	verifAfterEpollWait = func(int, []epollevent, int) { hit = true }
+	EpollWait(fd, make([]epollevent, 1), 0)
+	verifAfterEpollWait = old
+	return hit
+}
+
+func (w *vocWorld) startWait() bool {
+	if !vocHookAvailable() {
+		return false
+	}
+	w.toMain, w.resume, w.waitDone = make(chan vocEv), make(chan struct{}), make(chan error, 1)
+	w.realWait = true
+	p := w.p
+	p.Handler = func(events []epollevent) bool {
+		for i := range events {
+			if *(**FDOperator)(unsafe.Pointer(&events[i].data)) == p.wop {
+				return p.handler(events)
+			}
+		}
+		w.toMain <- vocEv{kind: 2}
+		<-w.resume
+		return false // the harness has dispatched every event of the batch through the real handler meanwhile
+	}
+	vocHookWorld = w
+	verifAfterEpollWait = func(epfd int, events []epollevent, n int) {
+		hw := vocHookWorld
+		if hw == nil || epfd != hw.p.fd {
+			return
+		}
+		ev := vocEv{kind: 1, n: n}
+		if n > 0 {
+			ev.batch = append([]epollevent(nil), events[:n]...)
+			for i := range ev.batch {
+				if *(**FDOperator)(unsafe.Pointer(&ev.batch[i].data)) == hw.p.wop {
+					ev.wop = true
+				}
+			}
+		}
+		hw.toMain <- ev
+		<-hw.resume
+	}
+	go func() { w.waitDone <- p.Wait() }()
+	return true
+}
+
+func (w *vocWorld) recv() (vocEv, bool) {
+	select {
+	case ev := <-w.toMain:
+		return ev, true
+	case <-time.After(5 * time.Second):
+		return vocEv{}, false
+	}
+}
+
+// pump follows the real loop until it blocks in epoll_wait again: every batch it fetches is written as "fetch", its events are
+// dispatched ("dispatch" = the real handler, one event per call, on behalf of the parked loop) and the state after the loop's own
+// opcache.free() is observed as "endbatch".  first: actions placed into the first batch –
+// afterFetch runs between the return of epoll_wait and the loop's next statement, beforeDispatch at the entry of p.Handler.
+func (w *vocWorld) pump(emit func(string) bool, afterFetch, beforeDispatch func()) bool {
+	for {
+		ev, ok := w.recv()
+		if !ok || ev.kind != 1 {
+			return false
+		}
+		if w.inBatch {
+			emit("endbatch") // Wait is past its free() of the previous iteration (if it is where it belongs)
+		}
+		if ev.n <= 0 || ev.wop {
+			w.resume <- struct{}{}
+			if ev.n <= 0 {
+				return true // msec = -1: the loop blocks until something arrives
+			}
+			continue
+		}
+		w.hookBatch = ev.batch
+		emit("fetch")
+		if afterFetch != nil {
+			afterFetch()
+			afterFetch = nil
+		}
+		w.resume <- struct{}{}
+		if ev2, ok := w.recv(); !ok || ev2.kind != 2 {
+			return false
+		}
+		if beforeDispatch != nil {
+			beforeDispatch()
+			beforeDispatch = nil
+		}
+		for w.inBatch && w.bpos < len(w.batch) {
+			if !emit("dispatch") {
+				break
+			}
+		}
+		w.resume <- struct{}{}
+	}
+}
+
+func (w *vocWorld) stopWait(emit func(string) bool) bool {
+	if !w.realWait || w.waitEnded {
+		return true
+	}
+	w.p.Close()
+	dl := time.After(10 * time.Second)
+	for {
+		select {
+		case ev := <-w.toMain:
+			if ev.kind == 1 && w.inBatch {
+				emit("endbatch")
+			}
+			if ev.kind == 1 && ev.n > 0 && !ev.wop {
+				// connection events fetched together with nothing else: dispatch them like any batch
+				w.hookBatch = ev.batch
+				emit("fetch")
+				w.resume <- struct{}{}
+				if ev2, ok := w.recv(); !ok || ev2.kind != 2 {
+					return false
+				}
+				for w.inBatch && w.bpos < len(w.batch) {
+					if !emit("dispatch") {
+						break
+					}
+				}
+			}
+			w.resume <- struct{}{}
+		case <-w.waitDone:
+			w.waitEnded = true
+			vocHookWorld = nil
+			verifAfterEpollWait = nil
+			return true
+		case <-dl:
+			return false
+		}
+	}
+}
+
+func (w *vocWorld) newSentinel() (*vocSentinel, error) {
+	fds, err := syscall.Socketpair(syscall.AF_UNIX, syscall.SOCK_STREAM, 0)
+	if err != nil {
+		return nil, err
+	}
+	st := &vocSentinel{fds: [2]int{fds[0], fds[1]}, done: make(chan struct{})}
+	st.op = &FDOperator{FD: fds[0], poll: w.p}
+	st.op.OnHup = func(p Poll) error { close(st.done); return nil }
+	if err := w.p.Control(st.op, PollReadable); err != nil {
+		syscall.Close(fds[0])
+		syscall.Close(fds[1])
+		return nil, err
+	}
+	return st, nil
+}
+
+func (st *vocSentinel) wait(d time.Duration) bool {
+	select {
+	case <-st.done:
+		syscall.Close(st.fds[0])
+		syscall.Close(st.fds[1])
+		return true
+	case <-time.After(d):
+		return false
+	}
+}
+
+// bystanders: a connection that was neither closed by its user nor hung up on by its peer must be untouched: active, registered,
+// its OnDisconnect never called (C10: nothing done on behalf of another connection closes or stalls it)
+func (w *vocWorld) disturbed() []string {
+	var bad []string
+	for _, vc := range w.conns {
+		if vc.closed || vc.peerClosed {
+			continue
+		}
+		switch {
+		case atomic.LoadInt32(&vc.disc) > 0:
+			bad = append(bad, fmt.Sprintf("conn%d (slot %d): OnDisconnect ran although its peer is alive", vc.id, vc.idx))
+		case !vc.c.IsActive():
+			bad = append(bad, fmt.Sprintf("conn%d (slot %d): closed although neither its user nor its peer closed it", vc.id, vc.idx))
+		case atomic.LoadInt32(&vc.op.detached) != 0:
+			bad = append(bad, fmt.Sprintf("conn%d (slot %d): deregistered from the poller although its peer is alive", vc.id, vc.idx))
+		}
+	}
+	return bad
+}
+
+// release opens every gate and waits until the delayed hang-up goroutines are through their lists
+func (w *vocWorld) release() (full []string, hang bool) {
+	for _, vc := range w.conns {
+		if vc.gate != nil {
+			close(vc.gate)
+			vc.gate = nil
+		}
+	}
+	for _, st := range w.sents {
+		if !st.wait(3 * time.Second) {
+			hang = true
+		}
+	}
+	w.sents = nil
+	for _, vc := range w.conns {
+		if !vc.deferred {
+			continue
+		}
+		vc.deferred = false
+		if vc.closed {
+			continue // its user closed it before the hang-up was delivered: the delivery found nothing to do
+		}
+		if vc.handler {
+			if !w.freed(vc) {
+				hang = true
+				continue
+			}
+			vc.closed = true
+			full = append(full, fmt.Sprint(vc.idx))
+		} else {
+			dl := time.Now().Add(2 * time.Second)
+			for !vc.c.isCloseBy(poller) && time.Now().Before(dl) {
+				time.Sleep(50 * time.Microsecond)
+			}
+		}
+	}
+	return full, hang
 }
 
 func (w *vocWorld) slotObs(idx int32) string {
@@ -135,6 +401,12 @@ func (w *vocWorld) open(handler bool) (string, string) {
 	c := &connection{}
 	vc := &vocConn{id: w.nextID, peer: fds[1], handler: handler}
 	opts := &options{}
+	opts.onDisconnect = func(ctx context.Context, conn Connection) {
+		atomic.AddInt32(&vc.disc, 1)
+		if g := vc.gate; g != nil {
+			<-g
+		}
+	}
 	if handler {
 		opts.onRequest = func(ctx context.Context, conn Connection) error {
 			r := conn.Reader()
@@ -233,11 +505,20 @@ func (w *vocWorld) exec(toks []string) (op string, reply string) {
 		if w.inBatch {
 			return op, "skip"
 		}
-		n, err := EpollWait(w.p.fd, w.p.events, 0)
-		if err != nil || n < 0 {
-			n = 0
+		if w.realWait {
+			// the batch is the one defaultPoll.Wait's own epoll_wait returned
+			if w.hookBatch == nil {
+				return op, "skip"
+			}
+			w.batch = append(w.batch[:0], w.hookBatch...)
+			w.hookBatch = nil
+		} else {
+			n, err := EpollWait(w.p.fd, w.p.events, 0)
+			if err != nil || n < 0 {
+				n = 0
+			}
+			w.batch = append(w.batch[:0], w.p.events[:n]...)
 		}
-		w.batch = append(w.batch[:0], w.p.events[:n]...)
 		w.bpos, w.inBatch = 0, true
 		var idxs []string
 		for i := range w.batch {
@@ -368,11 +649,136 @@ func (w *vocWorld) exec(toks []string) (op string, reply string) {
 			return fmt.Sprintf("dclose %d slot=%d", vc.id, vc.idx), "BYSTANDER-FAIL bytes of a descriptor opened while connection " + fmt.Sprint(vc.id) + "'s event was being dispatched were consumed on behalf of that (closed) connection: " + verdict
 		}
 		return fmt.Sprintf("dclose %d slot=%d", vc.id, vc.idx), fmt.Sprintf("ok ran=%s probe=intact %s", ran, w.obs())
+	case "waitround", "waitend":
+		return op, "ok " + w.obs()
+	case "waithang":
+		return op, "hang"
+	case "gate":
+		// the connection's OnDisconnect callback will block until "release" (a slow user callback on the hang-up goroutine)
+		vc := w.conns[atoi(toks[1])]
+		if vc.closed || vc.hupped || vc.handler || vc.gate != nil {
+			return op, "skip"
+		}
+		vc.gate = make(chan struct{})
+		return op, "ok " + w.obs()
+	case "dispatchall":
+		// the rest of the batch in ONE handler call, as Wait does it: one hang-up list, one hang-up goroutine for all of them
+		if !w.inBatch || w.bpos >= len(w.batch) {
+			return op, "skip"
+		}
+		evs := append([]epollevent(nil), w.batch[w.bpos:]...)
+		type item struct {
+			o       *FDOperator
+			vc      *vocConn
+			willRun bool
+		}
+		items := make([]item, len(evs))
+		for i := range evs {
+			o := *(**FDOperator)(unsafe.Pointer(&evs[i].data))
+			items[i] = item{o: o, willRun: atomic.LoadInt32(&o.state) == 1}
+			for _, c := range w.conns {
+				if !c.closed && !c.hupped && c.op == o {
+					items[i].vc = c
+				}
+			}
+		}
+		st, err := w.newSentinel()
+		if err != nil {
+			return op, "skip"
+		}
+		var sev epollevent
+		sev.events = syscall.EPOLLHUP
+		*(**FDOperator)(unsafe.Pointer(&sev.data)) = st.op
+		evs = append(evs, sev)
+		w.bpos = len(w.batch)
+		w.ran = w.ran[:0]
+		w.p.handler(evs)
+		runtime.KeepAlive(st)
+		ran := "none"
+		if len(w.ran) > 0 {
+			// one entry per event: an event with data and a hang-up calls Inputs again from readall
+			var l []string
+			for i, id := range w.ran {
+				if i == 0 || w.ran[i-1] != id {
+					l = append(l, fmt.Sprint(id))
+				}
+			}
+			ran = strings.Join(l, "+")
+		}
+		var notes []string
+		blocked := false
+		for _, it := range items {
+			vc, o := it.vc, it.o
+			tag := ""
+			if vc != nil && it.willRun {
+				if atomic.LoadInt32(&o.detached) > 0 || vc.c.status(closing) != 0 {
+					switch {
+					case blocked:
+						// behind a blocked entry of the same list: recorded, not delivered
+						vc.deferred, vc.hupped, tag = true, true, ":hupq"
+					case vc.gate != nil:
+						dl := time.Now().Add(4 * time.Second)
+						for atomic.LoadInt32(&vc.disc) == 0 && time.Now().Before(dl) {
+							time.Sleep(50 * time.Microsecond)
+						}
+						if atomic.LoadInt32(&vc.disc) == 0 {
+							return "dispatchall -", "hang"
+						}
+						blocked, vc.hupped, tag = true, true, ":hupg"
+					case vc.handler:
+						if !w.freed(vc) {
+							return "dispatchall -", "hang"
+						}
+						vc.closed, tag = true, ":hupf"
+					default:
+						dl := time.Now().Add(2 * time.Second)
+						for !vc.c.isCloseBy(poller) && time.Now().Before(dl) {
+							time.Sleep(50 * time.Microsecond)
+						}
+						time.Sleep(100 * time.Microsecond)
+						vc.hupped, tag = true, ":hupd"
+					}
+				} else {
+					vc.settle()
+				}
+			}
+			notes = append(notes, fmt.Sprintf("%d%s", o.index, tag))
+		}
+		if blocked {
+			w.sents = append(w.sents, st)
+		} else if !st.wait(3 * time.Second) {
+			return "dispatchall " + strings.Join(notes, ","), "hang"
+		}
+		return "dispatchall " + strings.Join(notes, ","), fmt.Sprintf("ok ran=%s %s", ran, w.obs())
+	case "release":
+		if len(w.sents) == 0 {
+			armed := false
+			for _, vc := range w.conns {
+				armed = armed || vc.gate != nil
+			}
+			if !armed {
+				return op, "skip"
+			}
+		}
+		full, hang := w.release()
+		l := strings.Join(full, ",")
+		if l == "" {
+			l = "-"
+		}
+		if hang {
+			return "release full=" + l, "hang"
+		}
+		if bad := w.disturbed(); len(bad) > 0 {
+			return "release full=" + l, "BYSTANDER-FAIL after the delayed hang-ups were delivered: " + strings.Join(bad, "; ")
+		}
+		return "release full=" + l, "ok " + w.obs()
 	case "endbatch":
 		if !w.inBatch || w.bpos < len(w.batch) {
 			return op, "skip"
 		}
-		w.p.opcache.free()
+		if !w.realWait {
+			w.p.opcache.free() // (in real-Wait mode this is the loop's own statement; the step only observes the result)
+		}
 		w.inBatch = false
 		return op, "ok " + w.obs()
 	case "close":
@@ -427,6 +833,7 @@ func (w *vocWorld) exec(toks []string) (op string, reply string) {
 				bad = append(bad, fmt.Sprintf("conn%d got %d of %d", vc.id, have, vc.sent))
 			}
 		}
+		bad = append(bad, w.disturbed()...)
 		if len(bad) > 0 {
 			return op, "BYSTANDER-FAIL " + strings.Join(bad, "; ")
 		}
@@ -450,6 +857,7 @@ func vocNewWorld() (*vocWorld, func(), error) {
 	pollmanager = m
 	w := &vocWorld{p: p, slots: map[int32]bool{}}
 	return w, func() {
+		w.release()
 		for _, vc := range w.conns {
 			if !vc.closed {
 				vc.c.Close()
@@ -459,9 +867,75 @@ func vocNewWorld() (*vocWorld, func(), error) {
 			}
 		}
 		pollmanager = old
+		if w.realWait {
+			if w.stopWait(func(l string) bool { w.exec(strings.Fields(l)); return true }) {
+				return // the close message made the loop close both descriptors
+			}
+			vocHookWorld = nil
+			verifAfterEpollWait = nil
+		}
 		syscall.Close(p.wop.FD)
 		syscall.Close(p.fd)
 	}, nil
+}
+
+// runRound: one round of a real-Wait sequence.  spec = "s=<ids> c=<ids> o=<n> x=<0|1>": the connections in s get data (their
+// events make the loop's next batch); when the loop's epoll_wait has returned – and before the loop executes its next statement –
+// the users of the connections in c close them; at the entry of p.Handler, i.e. between fetch and dispatch, o new connections are
+// opened (x=1: the last one gets data at once); then the batch is dispatched and the loop goes on.
+func (w *vocWorld) runRound(spec string, emit func(string) bool) {
+	ids := func(v string) []int {
+		var out []int
+		for _, t := range strings.Split(v, ",") {
+			var n int
+			if _, err := fmt.Sscanf(t, "%d", &n); err == nil {
+				out = append(out, n)
+			}
+		}
+		return out
+	}
+	var sends, closes []int
+	opens, sendNew := 0, false
+	for _, kv := range strings.Fields(spec) {
+		switch {
+		case strings.HasPrefix(kv, "s="):
+			sends = ids(kv[2:])
+		case strings.HasPrefix(kv, "c="):
+			closes = ids(kv[2:])
+		case strings.HasPrefix(kv, "o="):
+			fmt.Sscanf(kv[2:], "%d", &opens)
+		case kv == "x=1":
+			sendNew = true
+		}
+	}
+	emit("waitround " + spec)
+	sent := 0
+	for _, id := range sends {
+		if id < len(w.conns) && !w.conns[id].closed && !w.conns[id].peerClosed {
+			emit(fmt.Sprintf("send %d", id))
+			sent++
+		}
+	}
+	if sent > 0 {
+		ok := w.pump(emit, func() {
+			for _, id := range closes {
+				if id < len(w.conns) {
+					emit(fmt.Sprintf("close %d", id))
+				}
+			}
+		}, func() {
+			for i := 0; i < opens; i++ {
+				emit("open")
+			}
+			if sendNew && opens > 0 {
+				emit(fmt.Sprintf("send %d", len(w.conns)-1))
+			}
+		})
+		if !ok {
+			emit("waithang")
+		}
+	}
+	emit("waitend")
 }
 
 // VerifOpCacheMain: opcacheh -seed S -seqs N -ops K -ops-out F -impl-out F [-replay F]
@@ -473,6 +947,7 @@ func VerifOpCacheMain(args []string) int {
 	opsOut := fs.String("ops-out", "", "")
 	implOut := fs.String("impl-out", "", "")
 	replay := fs.String("replay", "", "")
+	waitEvery := fs.Int("wait-every", 4, "every n-th sequence runs the REAL defaultPoll.Wait loop as the poller (needs the EpollWait schedule point of lib/epollhook.py; 0 = never)")
 	hazard := fs.Bool("hazard", false, "start every sequence with a directed prelude around the slot-reuse window (search for a failing input)")
 	if err := fs.Parse(args); err != nil {
 		return 2
@@ -544,6 +1019,7 @@ func VerifOpCacheMain(args []string) int {
 		sc := bufio.NewScanner(f)
 		var w *vocWorld
 		var done func()
+		skipRound := false
 		for sc.Scan() {
 			line := strings.TrimSpace(sc.Text())
 			if line == "" || strings.HasPrefix(line, "#") {
@@ -553,6 +1029,7 @@ func VerifOpCacheMain(args []string) int {
 				if done != nil {
 					done()
 				}
+				skipRound = false
 				w, done, err = vocNewWorld()
 				if err != nil {
 					fmt.Fprintln(os.Stderr, err)
@@ -564,12 +1041,39 @@ func VerifOpCacheMain(args []string) int {
 			}
 			// op lines carry annotations (slot=…, fetched indices): strip them for re-execution
 			t := strings.Fields(line)
+			if skipRound {
+				// the lines a round of the real loop produced: re-created by re-running the round
+				skipRound = t[0] != "waitend"
+				continue
+			}
 			switch t[0] {
-			case "open", "openh", "fetch", "endbatch", "check", "drain", "dclose":
+			case "waitstart":
+				if !w.startWait() {
+					fmt.Fprintln(os.Stderr, "opcacheh: built without the EpollWait schedule point (lib/epollhook.py): cannot replay a real-Wait sequence")
+					return 2
+				}
+				fmt.Fprintln(ow, "waitstart")
+				fmt.Fprintln(iw, "ok "+w.obs())
+				continue
+			case "waitround":
+				w.runRound(strings.Join(t[1:], " "), func(l string) bool { return emit(w, l) })
+				skipRound = true
+				continue
+			case "waitstop":
+				rep := "hang"
+				if w.stopWait(func(l string) bool { return emit(w, l) }) {
+					rep = "ok " + w.obs()
+				}
+				fmt.Fprintln(ow, "waitstop")
+				fmt.Fprintln(iw, rep)
+				continue
+			}
+			switch t[0] {
+			case "open", "openh", "fetch", "endbatch", "check", "drain", "dclose", "dispatchall", "release":
 				t = t[:1]
 			case "dispatch":
 				t = t[:1]
-			case "close", "send", "hup":
+			case "close", "send", "hup", "gate":
 				t = t[:2]
 			case "stale":
 				t = t[:3]
@@ -590,7 +1094,118 @@ func VerifOpCacheMain(args []string) int {
 		}
 		fmt.Fprintf(ow, "seq %d\n", s)
 		fmt.Fprintln(iw, "seq")
-		if *hazard {
+		if *waitEvery > 0 && s%*waitEvery == *waitEvery-1 {
+			// the REAL loop is the poller: closes placed between the return of its epoll_wait and its next statement, opens placed
+			// between its fetch and its dispatch; its own opcache.free() decides when a released slot can be handed out again
+			em := func(l string) bool { return emit(w, l) }
+			k := 2 + r.Intn(3)
+			for i := 0; i < k; i++ {
+				if r.Intn(3) == 0 {
+					emit(w, "openh")
+				} else {
+					emit(w, "open")
+				}
+			}
+			if r.Intn(3) == 0 {
+				emit(w, "drain")
+			}
+			if w.startWait() {
+				fmt.Fprintln(ow, "waitstart")
+				fmt.Fprintln(iw, "ok "+w.obs())
+				for round := 1 + r.Intn(3); round > 0; round-- {
+					var live []int
+					for _, vc := range w.conns {
+						if !vc.closed && !vc.peerClosed {
+							live = append(live, vc.id)
+						}
+					}
+					if len(live) == 0 {
+						break
+					}
+					r.Shuffle(len(live), func(i, j int) { live[i], live[j] = live[j], live[i] })
+					ns := 1 + r.Intn(len(live))
+					if ns > 3 {
+						ns = 3
+					}
+					sends := live[:ns]
+					var cl []string
+					for i, id := range sends {
+						// the first one (whose data wakes the loop) is closed two rounds in three
+						if (i == 0 && r.Intn(3) != 0) || (i > 0 && r.Intn(3) == 0) {
+							cl = append(cl, fmt.Sprint(id))
+						}
+					}
+					var sl []string
+					for _, id := range sends {
+						sl = append(sl, fmt.Sprint(id))
+					}
+					c := strings.Join(cl, ",")
+					if c == "" {
+						c = "-"
+					}
+					w.runRound(fmt.Sprintf("s=%s c=%s o=%d x=%d", strings.Join(sl, ","), c, r.Intn(3), r.Intn(2)), em)
+				}
+				emit(w, "check")
+				// every connection is closed while the poller's descriptors are still open; then the close message ends the loop
+				for _, vc := range w.conns {
+					if !vc.closed {
+						emit(w, fmt.Sprintf("close %d", vc.id))
+					}
+				}
+				rep := "hang"
+				if w.stopWait(em) {
+					rep = "ok " + w.obs()
+				}
+				fmt.Fprintln(ow, "waitstop")
+				fmt.Fprintln(iw, rep)
+				done()
+				continue
+			}
+		}
+		if *hazard && r.Intn(3) == 0 {
+			// directed prelude around the hang-up queue: several peers hang up, all of it dispatched in ONE handler call with the first
+			// connection's OnDisconnect blocked (one hang-up list, one goroutine, stuck at its first entry); meanwhile users close some of
+			// the others, the batch ends, new connections take the freed slots; then the goroutine is let go
+			k := 2 + r.Intn(3)
+			emit(w, "open")
+			for i := 1; i < k; i++ {
+				if r.Intn(3) == 0 {
+					emit(w, "openh")
+				} else {
+					emit(w, "open")
+				}
+			}
+			if r.Intn(4) != 0 {
+				emit(w, "drain")
+			}
+			emit(w, "gate 0")
+			for i := 0; i < k; i++ {
+				if i < 2 || r.Intn(4) != 0 {
+					emit(w, fmt.Sprintf("hup %d", i))
+				} else {
+					emit(w, fmt.Sprintf("send %d", i))
+				}
+			}
+			emit(w, "fetch")
+			emit(w, "dispatchall")
+			for j := 1 + r.Intn(2); j > 0; j-- {
+				emit(w, fmt.Sprintf("close %d", 1+r.Intn(k-1)))
+			}
+			emit(w, "endbatch")
+			if r.Intn(2) == 0 {
+				emit(w, "fetch")
+				emit(w, "endbatch")
+			}
+			for j := 1 + r.Intn(2); j > 0; j-- {
+				emit(w, "open")
+			}
+			if r.Intn(2) == 0 {
+				emit(w, fmt.Sprintf("send %d", len(w.conns)-1))
+			}
+			if r.Intn(3) != 0 {
+				emit(w, "release")
+			}
+		} else if *hazard {
 			// directed prelude: k connections, allocation list used up, data for some of them fetched but not dispatched,
 			// one or two of those closed (or told to hang up), new connections opened inside the batch, then the batch is dispatched
 			k := 2 + r.Intn(3)
@@ -625,7 +1240,7 @@ func VerifOpCacheMain(args []string) int {
 			var line string
 			nc := len(w.conns)
 			pick := func() int { return r.Intn(nc) }
-			switch k := r.Intn(21); {
+			switch k := r.Intn(24); {
 			case k == 20:
 				if r.Intn(2) == 0 {
 					continue
@@ -639,6 +1254,12 @@ func VerifOpCacheMain(args []string) int {
 				if r.Intn(2) == 0 {
 					line = "openh"
 				}
+			case k == 21:
+				line = fmt.Sprintf("gate %d", pick())
+			case k == 22:
+				line = "release"
+			case k == 23:
+				line = fmt.Sprintf("hup %d", pick())
 			case k < 7:
 				vc := w.conns[pick()]
 				if vc.closed {
@@ -649,8 +1270,11 @@ func VerifOpCacheMain(args []string) int {
 				line = "fetch"
 			case k < 14:
 				line = "dispatch"
-				if r.Intn(6) == 0 {
+				switch r.Intn(6) {
+				case 0:
 					line = "dclose"
+				case 1:
+					line = "dispatchall"
 				}
 			case k < 16:
 				line = "endbatch"
@@ -665,7 +1289,8 @@ func VerifOpCacheMain(args []string) int {
 				break
 			}
 		}
-		// drain: finish the batch, deliver everything, check bystanders
+		// drain: let delayed hang-ups through, finish the batch, deliver everything, check bystanders
+		emit(w, "release")
 		for w.inBatch && w.bpos < len(w.batch) {
 			emit(w, "dispatch")
 		}
